@@ -178,11 +178,11 @@ let () =
     try while true do
       let line = input_line stdin in
       match toks line with
-      | ["N"] -> st := init; print_string "{\"out\":[],\"snap\":null}\n"
-      | ["R"] -> st := restart !st; print_string ("{\"out\":[[\"unit\"]],\"snap\":" ^ snap_s !st ^ "}\n")
+      | ["N"] -> st := init; print_string "{\"out\":[],\"snap\":null}\n"; flush stdout
+      | ["R"] -> st := restart !st; print_string ("{\"out\":[[\"unit\"]],\"snap\":" ^ snap_s !st ^ "}\n"); flush stdout
       | t -> (match parse_op t with
           | Some o -> let (s', outs) = step !st o in st := s';
-            print_string ("{\"out\":" ^ list_s out_s outs ^ ",\"snap\":" ^ snap_s s' ^ "}\n")
-          | None -> print_string "{\"error\":\"parse\"}\n")
+            print_string ("{\"out\":" ^ list_s out_s outs ^ ",\"snap\":" ^ snap_s s' ^ "}\n"); flush stdout
+          | None -> print_string "{\"error\":\"parse\"}\n"; flush stdout)
     done with End_of_file -> ()
   end
